@@ -71,7 +71,7 @@ Example ex_mono : forall a b : Q, 0 < a -> a <= b -> (fun x => x) a <= (fun x =>
 Close Scope Q_scope.
 Open Scope Z_scope.
 Definition ex_gen (s : selection) (ax : pyaxis) (v : pyview) (ncm : Z) :=
-  match gen_compute_statistic Z (list Z) (fun l => l) [] [(-1)%Z] (fun _ => true) (fun c => (0 <? c)%Z) ex_shape ex_a 2 20 s ax true false v ncm with
+  match gen_compute_statistic Z (list Z) (fun l => l) [] [(-1)%Z] (fun _ => true) (fun c => (0 <? c)%Z) ex_shape ex_a (fun d => d) 2 20 0%Z s ax true false v ncm with
   | Ok (sh, r) => Some (sh, map r (box sh))
   | Err _ => None
   end.
